@@ -12,6 +12,7 @@ package c17
 
 import (
 	"fmt"
+	"hash/crc32"
 	"os"
 	"path/filepath"
 	"sort"
@@ -334,6 +335,71 @@ func checkCase(c Case) error {
 				if err := matchGrid(tables[i], s.Grid(), mdparse.Norm); err != nil {
 					return fmt.Errorf("markdown: sheet %q: %v", s.Name, err)
 				}
+			}
+		}
+		// (s) one reader asked several times, also for a selection of sheets: every answer is a fresh reader's
+		// (every fifth workbook: each question costs a reader of its own)
+		if crc32.ChecksumIEEE(data)%5 != 0 {
+			return nil
+		}
+		type ask struct {
+			name string
+			run  func(r *xlsx.Reader) string
+		}
+		asks := []ask{
+			{"Markdown()", func(r *xlsx.Reader) string { s, _ := r.Markdown(); return s }},
+			{"Text()", func(r *xlsx.Reader) string { s, _ := r.Text(); return s }},
+			{"Tables()", func(r *xlsx.Reader) string { return fmt.Sprintf("%+v", r.Tables()) }},
+			{"Document()", func(r *xlsx.Reader) string {
+				d, err := r.Document()
+				if err != nil || d == nil {
+					return fmt.Sprint(err)
+				}
+				var sb strings.Builder
+				for _, pg := range d.Pages {
+					fmt.Fprintf(&sb, "page %d\n", pg.Number)
+					for _, el := range pg.Elements {
+						fmt.Fprintf(&sb, "%T %+v\n", el, el)
+					}
+				}
+				return sb.String()
+			}},
+		}
+		for k := len(sheets) - 1; k >= 0; k-- {
+			k := k
+			asks = append(asks, ask{fmt.Sprintf("MarkdownWithOptions(Sheets [%d])", k), func(r *xlsx.Reader) string {
+				s, _ := r.MarkdownWithOptions(xlsx.ExtractOptions{Sheets: []int{k}})
+				return s
+			}}, ask{fmt.Sprintf("TextWithOptions(Sheets [%d])", k), func(r *xlsx.Reader) string {
+				s, _ := r.TextWithOptions(xlsx.ExtractOptions{Sheets: []int{k}})
+				return s
+			}})
+		}
+		alone := make([]string, len(asks))
+		for i, a := range asks {
+			fr, err := xlsx.Open(path)
+			if err != nil {
+				return fmt.Errorf("xlsx.Open: %v", err)
+			}
+			alone[i] = a.run(fr)
+			fr.Close()
+		}
+		shared, err := xlsx.Open(path)
+		if err != nil {
+			return fmt.Errorf("xlsx.Open: %v", err)
+		}
+		defer shared.Close()
+		// a fixed tour through the questions that meets every one at least twice, in both directions
+		var order []int
+		for i := range asks {
+			order = append(order, i)
+		}
+		for i := len(asks) - 1; i >= 0; i-- {
+			order = append(order, i)
+		}
+		for step, i := range order {
+			if got := asks[i].run(shared); got != alone[i] {
+				return fmt.Errorf("one xlsx.Reader, call %d = %s: the answer differs from that of a fresh reader:\n got  %s\n want %s", step+1, asks[i].name, clip(got), clip(alone[i]))
 			}
 		}
 		return nil
